@@ -4,6 +4,19 @@ import (
 	"reflect"
 )
 
+// IsFalsy reports whether a value counts as false in a condition: nil and false - of the
+// predeclared bool type or of a named boolean type - and nothing else.
+func IsFalsy(value any) bool {
+	switch v := value.(type) {
+	case nil:
+		return true
+	case bool:
+		return !v
+	}
+	r := reflect.ValueOf(value)
+	return r.Kind() == reflect.Bool && !r.Bool()
+}
+
 // IsEmpty returns a bool indicating whether the value is empty according to Liquid semantics.
 func IsEmpty(value any) bool {
 	value = ToLiquid(value)
